@@ -205,6 +205,30 @@ impl CacheRead {
         Ok(bytes)
     }
 
+    /// Verification hook: where the real reader locates each member of this entry
+    /// (name, offset of the stored data, stored size, recorded CRC-32), in directory order.
+    #[cfg(sccache_verif)]
+    pub fn verif_members(&mut self) -> Vec<(String, u64, u64, u32)> {
+        let mut out = Vec::new();
+        for i in 0..self.zip.len() {
+            if let Ok(f) = self.zip.by_index_raw(i) {
+                out.push((
+                    f.name().to_owned(),
+                    f.data_start(),
+                    f.compressed_size(),
+                    f.crc32(),
+                ));
+            }
+        }
+        out
+    }
+
+    /// Verification hook: whether the entry's directory has a member called `name`.
+    #[cfg(sccache_verif)]
+    pub fn verif_has(&self, name: &str) -> bool {
+        self.zip.file_names().any(|n| n == name)
+    }
+
     pub async fn extract_objects<T>(
         mut self,
         objects: T,
